@@ -9,7 +9,8 @@
    bytes [out].  [sdec v] is the reference decoder (CobsModel.v).  The theorems hold for
    EVERY byte list, every resume state and every variant record — no well-formedness of
    the input is assumed unless stated. *)
-From MptV Require Import Base.Mem Cobs.CobsModel Cobs.DecModel Cobs.EncProofs Cobs.DecProofs Cobs.DecCall Cobs.DecComplete.
+From MptV Require Import Base.Mem Cobs.CobsModel Cobs.DecModel Cobs.EncProofs Cobs.EncTheorems Cobs.DecProofs Cobs.DecCall
+  Cobs.DecComplete Cobs.DecHistory.
 
 (* SAFETY, one call, arbitrary bytes and (well-formed) resume state: the region keeps its
    size; nothing before the state's decoded data is written; if anything was written, the
@@ -98,6 +99,30 @@ Theorem C03_accepted_frame_is_delivered_cobs :
     delivers v (dec_loop v false (rest ++ 0%N :: tl) (bn c0) 0 proc [] cons) m.
 Proof. exact dec_complete_sdec_cobs. Qed.
 
+(* CALL LEVEL.  [cinv v F st buf]: the state the C decoder keeps between calls (resume code and
+   position, read position, position/length of the decoded bytes, held message) describes a
+   decoder that has consumed the bytes [F] of the current frame and holds their decoding in the
+   buffer.  One call (any fragment geometry and alignment residues, COBS/R wrapper included)
+   from such a state: if it reports a message, the bytes it consumed complete a frame whose
+   reference decoding is exactly the message handed out; if it asks for more, the invariant
+   holds with the consumed bytes added; the unread input is untouched. *)
+Theorem C03_call_delivers_reference_decoding :
+  forall v F st buf frags res, cinv v F st buf ->
+    let '(r, st', buf') := dec_call_res v st buf frags res false in
+    call_post v F (dcurr st) buf r st' buf'.
+Proof. exact dec_call_honest. Qed.
+
+(* HISTORIES.  Start between messages (e.g. the initial state, any gap), make any number of calls
+   with any fragment geometry, append any bytes in any pieces between the calls: the messages
+   delivered (until the first error, if any) are, in order, the reference decodings of the
+   successive zero-terminated frames at the front of all the input handed over — whatever the
+   bytes are.  Segmentation of the input therefore cannot change what is delivered. *)
+Theorem C03_history_delivers_frames :
+  forall v st0 buf0 ops, cinv v [] st0 buf0 ->
+    let s := hrun v (mkhs st0 buf0 [] false) ops in
+    exists C rest, skipn (dcurr st0) buf0 ++ concat (map fed ops) = C ++ rest /\ frames_of v (hs_msgs s) C.
+Proof. exact dec_history_delivers. Qed.
+
 (* ---- non-vacuity ---- *)
 Example C03_hon_start : forall v c, 1 <= c -> hon v [nb c] [] c 0.
 Proof. exact hon_start. Qed.
@@ -110,6 +135,16 @@ Proof. vm_compute. auto. Qed.
 Example C03_example_malformed :
   let '(r, st', buf') := dec_call v_cobs (dinit 0) [3;65;0;66;0]%N [5] false in
   r = DErr MissingData /\ dmsg st' = None.
+Proof. vm_compute. auto. Qed.
+
+Example C03_cinv_init : forall v gap buf, gap <= length buf -> cinv v [] (dinit gap) buf.
+Proof. exact cinv_init. Qed.
+
+(* two frames arriving in three pieces, calls in between; gap of 3 bytes *)
+Example C03_example_history :
+  let s := hrun v_zpe (mkhs (dinit 3) [238;238;238;225;65]%N [] false)
+             [HCall [5] []; HFeed [2;66]%N; HCall [7] []; HFeed [1;0;2;7;0]%N; HCall [12] []; HCall [12] []] in
+  hs_stop s = false /\ hs_msgs s = [[65;0;0;66;0]; [7]]%N.
 Proof. vm_compute. auto. Qed.
 
 Example C03_dwf_init : forall n, dwf (dinit n).
@@ -125,3 +160,5 @@ Print Assumptions C03_delivered_message_is_sdec.
 Print Assumptions C03_cobs_needs_no_slack.
 Print Assumptions C03_accepted_frame_is_delivered.
 Print Assumptions C03_accepted_frame_is_delivered_cobs.
+Print Assumptions C03_call_delivers_reference_decoding.
+Print Assumptions C03_history_delivers_frames.
